@@ -155,17 +155,23 @@ theorem walk_none_iff (idx : Nat) (t : Tree) (hs : Sorted t) :
 theorem formatLabel_eq (l : Label) (o : Nat) :
     l.formatLabel o =
       if l.style ≠ .none then
-        if l.start + o > U32_MAX then .panic
-        else .label (l.pfx.getD [] ++ charsToBytes (l.style.format (l.start + o)))
+        .label (l.pfx.getD [] ++ charsToBytes (l.style.format (min (l.start + o) U32_MAX)))
       else .label (l.pfx.getD []) := by
   unfold Label.formatLabel
   cases l.pfx <;> rfl
 
 theorem formatLabel_ne_absent (l : Label) (o : Nat) : l.formatLabel o ≠ .absent := by
   rw [formatLabel_eq]
-  split
-  · split <;> simp
-  · simp
+  split <;> simp
+
+/-- since repair 707b2902 `format_label` never panics -/
+theorem formatLabel_ne_panic (l : Label) (o : Nat) : l.formatLabel o ≠ .panic := by
+  rw [formatLabel_eq]
+  split <;> simp
+
+/-- REGRESSION WITNESS: the pre-repair addition panicked for a /St close to `u32::MAX` -/
+theorem formatLabelOld_panics : (⟨.decimal, none, 4294967295⟩ : Label).formatLabelOld 1 = .panic := by
+  decide
 
 /-! ### Roman numerals -/
 
